@@ -99,3 +99,41 @@ pub fn cleanup_dirs() {
 pub fn p(d: &Path, f: &str) -> String {
     d.join(f).to_string_lossy().to_string()
 }
+
+/// Run the bundled generator the way `selium-tools gen-certs` does: generate a fresh set and
+/// write it to the given client / server directories (overwriting what is there).
+pub fn bundled_write(client_dir: &Path, server_dir: &Path) -> Result<(), String> {
+    let g = cert_gen::CertGen::generate(true).map_err(|e| e.to_string())?;
+    g.output(client_dir, server_dir).map_err(|e| e.to_string())
+}
+
+fn b64(data: &[u8]) -> String {
+    const T: &[u8; 64] = b"ABCDEFGHIJKLMNOPQRSTUVWXYZabcdefghijklmnopqrstuvwxyz0123456789+/";
+    let mut out = String::new();
+    for c in data.chunks(3) {
+        let n = (c[0] as u32) << 16 | (*c.get(1).unwrap_or(&0) as u32) << 8 | *c.get(2).unwrap_or(&0) as u32;
+        out.push(T[(n >> 18) as usize & 63] as char);
+        out.push(T[(n >> 12) as usize & 63] as char);
+        out.push(if c.len() > 1 { T[(n >> 6) as usize & 63] as char } else { '=' });
+        out.push(if c.len() > 2 { T[n as usize & 63] as char } else { '=' });
+    }
+    out
+}
+
+pub fn pem(der: &[u8]) -> String {
+    let b = b64(der);
+    let mut s = String::from("-----BEGIN CERTIFICATE-----\n");
+    for l in b.as_bytes().chunks(64) {
+        s.push_str(std::str::from_utf8(l).unwrap());
+        s.push('\n');
+    }
+    s.push_str("-----END CERTIFICATE-----\n");
+    s
+}
+
+/// Like `write_dir`, but the identity's certificate file is a PEM bundle: the leaf followed by `extra` (e.g. its CA).
+pub fn write_dir_bundle(ca: &[u8], id: &Identity, extra: &[u8]) -> PathBuf {
+    let d = write_dir(ca, id);
+    std::fs::write(d.join("chain.pem"), format!("{}{}", pem(&id.cert), pem(extra))).expect("write chain");
+    d
+}
